@@ -22,7 +22,7 @@ partial def fmtA (lits : List String) : Fac → String
   | .atom n => lits.getD n "?"
   | .paren t => "(" ++ fmtT lits t ++ ")"
   | .neg a => "-" ++ fmtA lits a
-  | .not a => "¬" ++ fmtA lits a
+  | .not a => "!" ++ fmtA lits a
   | .tr a => fmtA lits a ++ "'"
 /-- text of a formula: the in-order sequence `fmt t`, operators between single spaces -/
 partial def fmtT (lits : List String) (t : Tree Fac) : String :=
